@@ -1,4 +1,5 @@
 import DimodProofs.Columns
+import DimodProofs.Slice
 
 /-! `concatenate`, `as_samples` stacking and deferred sample sets. -/
 
@@ -205,5 +206,98 @@ theorem lazy_changeVt (x : LSS) (vt : VT) (off : Rat) (inplace : Bool) :
   · split
     · simp [LSS.resolve, runHooks_single]
     · cases h : x.resolve.bind (Hook.changeVt vt off).run <;> simp [LSS.resolve]
+
+end SSM
+
+namespace SSM
+
+def Row.zero' : Row := ⟨[], 0, 0, []⟩
+
+/-! ### data() / samples() -/
+
+theorem dataOrder_perm (rows : List Row) (by_ : Option Key) (rev : Bool) :
+    (dataOrder rows by_ rev).Perm (List.range rows.length) := by
+  cases by_ with
+  | none => cases rev <;> simp [dataOrder, List.reverse_perm]
+  | some k =>
+    have h : (argsort (rows.map (fun r : Row => r.key k))).Perm (List.range rows.length) := by
+      simpa using (argsort_isSortingPerm (rows.map (fun r : Row => r.key k))).1
+    cases rev
+    · simpa [dataOrder] using h
+    · simpa [dataOrder] using (List.reverse_perm _).trans h
+
+/-- every datum yielded by `data(index=True)` is the row at the index it reports -/
+theorem data_index (s : SS) (by_ : Option Key) (rev : Bool) (r : Row) (i : Nat) (h : (r, i) ∈ s.data by_ rev) :
+    s.rows[i]? = some r := by
+  simp only [SS.data, List.mem_filterMap] at h
+  obtain ⟨j, _, hj⟩ := h
+  cases hr : s.rows[j]? with
+  | none => simp [hr] at hj
+  | some r' =>
+    simp only [hr, Option.map_some, Option.some.injEq, Prod.mk.injEq] at hj
+    obtain ⟨rfl, rfl⟩ := hj
+    exact hr
+
+/-- `data()` yields every row exactly once -/
+theorem data_rows_perm (s : SS) (by_ : Option Key) (rev : Bool) : ((s.data by_ rev).map (·.1)).Perm s.rows := by
+  have hp := dataOrder_perm s.rows by_ rev
+  have hlt : ∀ i ∈ dataOrder s.rows by_ rev, i < s.rows.length := fun i hi => by simpa using hp.mem_iff.mp hi
+  have : (s.data by_ rev).map (·.1) = gather s.rows (dataOrder s.rows by_ rev) := by
+    simp only [SS.data, gather, List.map_filterMap]
+    congr 1
+    funext i
+    cases s.rows[i]? <;> rfl
+  rw [this]
+  exact gather_perm _ _ hp
+
+/-- sorted ascending, or descending with `reverse=True` -/
+theorem data_sorted (s : SS) (k : Key) :
+    ((gather s.rows (dataOrder s.rows (some k) false)).Pairwise fun a b => a.key k ≤ b.key k) ∧
+    ((gather s.rows (dataOrder s.rows (some k) true)).Pairwise fun a b => b.key k ≤ a.key k) := by
+  have hs := (argsort_isSortingPerm (s.rows.map (·.key k))).2
+  rw [gather_map, List.pairwise_map] at hs
+  have hlt : ∀ i ∈ argsort (s.rows.map (·.key k)), i < s.rows.length := fun i hi => by
+    have := argsort_lt _ i hi; simpa using this
+  constructor
+  · simpa [dataOrder] using hs
+  · simp only [dataOrder, if_true]
+    rw [gather_eq_map _ _ (by intro i hi; exact hlt i (List.mem_reverse.mp hi)) Row.zero', List.map_reverse, List.pairwise_reverse,
+      ← gather_eq_map _ _ hlt Row.zero']
+    exact hs
+
+/-! ### concatenate with different data vectors -/
+
+theorem getElem?_map_idxOf [BEq α] [LawfulBEq α] (l : List α) (g : α → β) (f : α) (hf : f ∈ l) :
+    (l.map g)[l.idxOf f]? = some (g f) := by
+  have hk : l.idxOf f < l.length := List.idxOf_lt_length_iff.mpr hf
+  rw [List.getElem?_map, List.getElem?_eq_getElem hk, List.getElem_idxOf hk]
+  rfl
+
+/-- laying a row out over the union of the fields keeps sample, energy and occurrences, keeps every field the
+    set has, and fills exactly the missing ones -/
+theorem relayExtra_spec (U : List String) (fill : String → List Rat) (s : SS) (r : Row) :
+    (relayExtra U fill s r).sample = r.sample ∧ (relayExtra U fill s r).energy = r.energy ∧ (relayExtra U fill s r).occ = r.occ ∧
+    ∀ f ∈ U, (relayExtra U fill s r).extra[U.idxOf f]? =
+      some (if f ∈ s.fields then r.extra.getD (s.fields.idxOf f) [] else fill f) := by
+  refine ⟨rfl, rfl, rfl, ?_⟩
+  intro f hf
+  exact getElem?_map_idxOf U _ f hf
+
+theorem concatenateD_spec (fill : String → List Rat) (first : SS) (rest : List SS) (s' : SS)
+    (h : concatenateD fill (first :: rest) = some s') :
+    s'.labels = first.labels ∧ s'.vt = first.vt ∧ s'.fields = unionFields (first :: rest) ∧
+    ∃ blocks : List (List Row), blocks.length = rest.length ∧
+      s'.rows = first.rows.map (relayExtra (unionFields (first :: rest)) fill first) ++ blocks.flatten ∧
+      ∀ (j : Nat) (s : SS), rest[j]? = some s → ∃ b rows, blocks[j]? = some b ∧ coerceTo first.vt first.labels s = some rows ∧
+        b = rows.map (relayExtra (unionFields (first :: rest)) fill s) := by
+  simp only [concatenateD, Option.map_eq_some_iff] at h
+  obtain ⟨rs, hrs, rfl⟩ := h
+  obtain ⟨hl, hget⟩ := allSome_map_spec _ _ _ hrs
+  refine ⟨rfl, rfl, rfl, rs, hl, rfl, ?_⟩
+  intro j s hs
+  obtain ⟨b, hb, he⟩ := hget j s hs
+  simp only [Option.map_eq_some_iff] at he
+  obtain ⟨rows, hr, rfl⟩ := he
+  exact ⟨_, rows, hb, hr, rfl⟩
 
 end SSM
